@@ -292,3 +292,87 @@ func verifH_C16_external_structures() {
 	verifAssert(reflect.DeepEqual(before, after), "C16 structures: after internalising, serialising and reloading every schema dereferences to the same content as before")
 	verifReach("end")
 }
+
+//verif:harness id=C16 tier=quick,thorough witness=end bounds="external operation-level objects whose own file-local references must follow them: a response (header by local reference, content schema by local reference), a parameter and a request body referenced from e.json, each reaching e.json's own components, the root having different components under the same names; after InternalizeRefs + serialise + reload (no external reads) every probed schema dereferences to the same content as before"
+func verifH_C16_external_objects() {
+	files := map[string]string{
+		"/r/e.json": `{"components":{` +
+			`"schemas":{"Leaf":{"type":"string","minLength":9}},` +
+			`"headers":{"EH":{"schema":{"$ref":"#/components/schemas/Leaf"}}},` +
+			`"parameters":{"EP":{"name":"p","in":"query","schema":{"$ref":"#/components/schemas/Leaf"}}},` +
+			`"requestBodies":{"EB":{"content":{"application/json":{"schema":{"$ref":"#/components/schemas/Leaf"}}}}},` +
+			`"responses":{"NF":{"description":"d","headers":{"X":{"$ref":"#/components/headers/EH"}},"content":{"application/json":{"schema":{"$ref":"#/components/schemas/Leaf"}}}}}}}`,
+	}
+	which := verifChoose("which", 4) // which of the operation's parts is external (the others are inline)
+	param := `{"name":"p","in":"query","schema":{"type":"boolean"}}`
+	body := `{"content":{"application/json":{"schema":{"type":"boolean"}}}}`
+	resp := `{"description":"d"}`
+	switch which {
+	case 0:
+		param = `{"$ref":"e.json#/components/parameters/EP"}`
+	case 1:
+		body = `{"$ref":"e.json#/components/requestBodies/EB"}`
+	case 2:
+		resp = `{"$ref":"e.json#/components/responses/NF"}`
+	case 3:
+		param, body, resp = `{"$ref":"e.json#/components/parameters/EP"}`, `{"$ref":"e.json#/components/requestBodies/EB"}`, `{"$ref":"e.json#/components/responses/NF"}`
+	}
+	rootText := `{"openapi":"3.0.0","info":{"title":"t","version":"1"},"paths":{"/a":{"post":{"operationId":"op","parameters":[` + param + `],"requestBody":` + body + `,"responses":{"404":` + resp + `}}}},` +
+		`"components":{"schemas":{"Leaf":{"type":"integer"}},"headers":{"EH":{"schema":{"type":"integer"}}}}}`
+	rootLoc := &url.URL{Path: "/r/doc.json"}
+	loader := NewLoader()
+	loader.IsExternalRefsAllowed = true
+	loader.ReadFromURIFunc = func(l *Loader, u *url.URL) ([]byte, error) {
+		if u.Path == rootLoc.Path {
+			return []byte(rootText), nil
+		}
+		if t, ok := files[u.Path]; ok {
+			return []byte(t), nil
+		}
+		return nil, errors.New("no such file")
+	}
+	doc, err := loader.LoadFromDataWithPath([]byte(rootText), rootLoc)
+	verifAssert(err == nil && doc != nil, "C16 objects: the multi-file document loads")
+	if err != nil || doc == nil {
+		return
+	}
+	probe := func(d *T) any {
+		op := d.Paths.Value("/a").Post
+		out := map[string]any{}
+		if p := op.Parameters[0]; p != nil && p.Value != nil {
+			out["param"] = verifDerefSchema(p.Value.Schema, 0)
+		}
+		if op.RequestBody != nil && op.RequestBody.Value != nil {
+			if mt := op.RequestBody.Value.Content["application/json"]; mt != nil {
+				out["body"] = verifDerefSchema(mt.Schema, 0)
+			}
+		}
+		if r := op.Responses.Value("404"); r != nil && r.Value != nil {
+			if h := r.Value.Headers["X"]; h != nil && h.Value != nil {
+				out["header"] = verifDerefSchema(h.Value.Schema, 0)
+			} else if h != nil {
+				out["header"] = "unresolved:" + h.Ref
+			}
+			if mt := r.Value.Content["application/json"]; mt != nil {
+				out["content"] = verifDerefSchema(mt.Schema, 0)
+			}
+		}
+		return out
+	}
+	before := probe(doc)
+	doc.InternalizeRefs(context.Background(), nil)
+	b, merr := json.Marshal(doc)
+	verifAssert(merr == nil, "C16 objects: the internalised document serialises")
+	if merr != nil {
+		return
+	}
+	l2 := NewLoader()
+	l2.ReadFromURIFunc = func(*Loader, *url.URL) ([]byte, error) { return nil, errors.New("no reads expected") }
+	doc2, rerr := l2.LoadFromData(b)
+	verifAssert(rerr == nil && doc2 != nil, "C16 objects: the internalised document loads with external references disallowed")
+	if rerr != nil || doc2 == nil {
+		return
+	}
+	verifAssert(reflect.DeepEqual(before, probe(doc2)), "C16 objects: after internalising, serialising and reloading every schema of the operation dereferences to the same content as before")
+	verifReach("end")
+}
